@@ -33,6 +33,11 @@ CHECKS = {
             "process independence by child interpreters with hash seeds 0..3 (0..7 thorough); schedules by 8-thread stress and by a harness-owned term that "
             "re-enters a render of the enclosing object from inside get_sql at seven clause positions x six classes.",
             "Thread interleavings are sampled, not enumerated (stated limit of the technique); re-entrancy is owned at term granularity only."),
+    "C17": ("exhaustive cross product of 144 table variants (all pairs, all triples via the equality matrix) + schema/aliased-query/builder variants; Hypothesis expressions vs reference field collection",
+            "The equality/hash laws are checked on every ordered pair of the enumerated variants (finite space, enumerated completely in both tiers) "
+            "and set/dict membership is compared with linear search; fields_()/tables_ of generated expressions over three tables with colliding column "
+            "names are compared with a (table, column) collection computed independently from the program data.",
+            "Trusted: the documented table identity (name, schema path, alias); the reference walker over program data."),
 }
 
 NOT_BUILT = {}
